@@ -42,6 +42,7 @@ type Run struct {
 	seenOb      map[string]bool
 	curRule     string
 	Notes       []string
+	Controls    []string
 
 	model *Model
 	deep  *Deep
@@ -243,7 +244,7 @@ type violationFile struct {
 	Replay   string `json:"replay"`
 }
 
-func (r *Run) Finish(verifDir string, explanation string) int {
+func (r *Run) Finish(verifDir, outBase string, explanation string) int {
 	known, err := loadKnown(filepath.Join(verifDir, "KNOWN_FINDINGS.txt"))
 	if err != nil {
 		r.Undecide("known-findings", "cannot read KNOWN_FINDINGS.txt: %v", err)
@@ -277,7 +278,7 @@ func (r *Run) Finish(verifDir string, explanation string) int {
 			viol = append(viol, ob)
 		}
 	}
-	outDir := filepath.Join(verifDir, "out", "violations")
+	outDir := filepath.Join(outBase, "out", "violations")
 	os.MkdirAll(outDir, 0o755)
 	// stale violation files of this property are removed so that replay paths never point to old runs
 	if old, _ := filepath.Glob(filepath.Join(outDir, r.Prop+"-*.json")); len(old) > 0 {
@@ -361,15 +362,16 @@ func (r *Run) Finish(verifDir string, explanation string) int {
 			"samples":            samples,
 			"packages":           len(r.P.Pkgs),
 			"notes":              r.Notes,
+			"positive_controls":  r.Controls,
 			"exhaustive":         len(r.E.Trunc) == 0,
 		},
 		"assumptions": r.Assumptions,
 		"wall_s":      time.Since(r.Start).Seconds(),
 		"violations":  len(viol),
 	}
-	os.MkdirAll(filepath.Join(verifDir, "evidence"), 0o755)
+	os.MkdirAll(filepath.Join(outBase, "evidence"), 0o755)
 	b, _ := json.MarshalIndent(ev, "", " ")
-	if err := os.WriteFile(filepath.Join(verifDir, "evidence", r.Prop+".json"), b, 0o644); err != nil {
+	if err := os.WriteFile(filepath.Join(outBase, "evidence", r.Prop+".json"), b, 0o644); err != nil {
 		fmt.Println("cannot write evidence:", err)
 		return 2
 	}
